@@ -20,9 +20,29 @@ type NamedAddr struct {
 	Addr net.Addr
 }
 
-// Addrs is the address set. Index 0 is the reference client address "a".
+// NBase is the number of leading entries of Addrs() whose tokens are additionally put through
+// the full mutation enumeration (the AEAD does not look at the address; the three encodings
+// 4-byte IP / 16-byte IP / string are all among them). The tokens of the remaining addresses
+// are minted, decoded and presented unmodified from every address (level AddrOnly).
+const NBase = 14
+
+// Addrs is the address set. Index 0 is the reference client address "a" = 1.2.3.4 in the
+// 4-byte form a udp4 socket reports. Every address is used both as the address a token is
+// issued for and as the address a token is presented from.
+//
+// Entries NBase.. are addresses in ANOTHER ENCODING THAT SHARE BYTES with "a" (or with each
+// other): the 16-byte IPv6 addresses that carry the four bytes 1.2.3.4 somewhere inside
+// (RFC 6052 NAT64 with the well-known and with a /32 prefix, 6to4, ISATAP, the deprecated
+// IPv4-compatible form, an unrelated host whose low 32 bits happen to be equal, and - as a
+// systematic family - one address per position 0..12 at which the four bytes can sit in 16
+// bytes), 16-byte addresses one bit / one byte off the IPv4-mapped prefix, the IPv4-mapped
+// form of a neighbouring IPv4 address, two IPv6 hosts with the same interface identifier in
+// different prefixes, and a non-UDP address whose string is the 16 raw bytes of an IPv6
+// address. Different addresses by any reading of the statement; only a comparison that
+// looks at a part of the bytes (suffix, prefix, window, "is some IPv4-in-IPv6 form") can
+// confuse them.
 func Addrs() []NamedAddr {
-	return []NamedAddr{
+	as := []NamedAddr{
 		{"a=udp4:1.2.3.4:1000", &net.UDPAddr{IP: net.IP{1, 2, 3, 4}, Port: 1000}},
 		{"same-ip-other-port=udp4:1.2.3.4:2000", &net.UDPAddr{IP: net.IP{1, 2, 3, 4}, Port: 2000}},
 		{"other-ip-last-byte=udp4:1.2.3.5:1000", &net.UDPAddr{IP: net.IP{1, 2, 3, 5}, Port: 1000}},
@@ -38,6 +58,45 @@ func Addrs() []NamedAddr {
 		{"non-udp-raw-ip-bytes=str:\\x01\\x02\\x03\\x04", StrAddr{"\x01\x02\x03\x04"}},
 		{"non-udp-empty=str:", StrAddr{""}},
 	}
+	if len(as) != NBase {
+		panic("c14util: NBase out of date")
+	}
+	ip6 := func(s string) net.IP {
+		ip := net.ParseIP(s)
+		if len(ip) != net.IPv6len {
+			panic("c14util: bad address " + s)
+		}
+		return ip
+	}
+	udp6 := func(name, s string) NamedAddr {
+		return NamedAddr{name + "=udp6:[" + s + "]:1000", &net.UDPAddr{IP: ip6(s), Port: 1000}}
+	}
+	as = append(as,
+		// the four bytes of "a" as the low 32 bits of an IPv6 address
+		udp6("nat64-well-known-prefix", "64:ff9b::102:304"),
+		udp6("6to4", "2002:102:304::102:304"),
+		udp6("isatap", "fe80::5efe:102:304"),
+		udp6("v4-compatible", "::102:304"),
+		// ... in the middle (RFC 6052 with a /32 prefix)
+		udp6("nat64-32-bit-prefix", "2001:db8:102:304::"),
+		// next to the IPv4-mapped prefix ::ffff:0:0/96, but not in it
+		udp6("mapped-prefix-one-bit-off", "::fffe:102:304"),
+		udp6("mapped-prefix-first-byte-set", "100::ffff:102:304"),
+		// the IPv4-mapped form of the neighbouring IPv4 address 1.2.3.5
+		NamedAddr{"v4-mapped-of-other-ip=udp:[::ffff:1.2.3.5]:1000", &net.UDPAddr{IP: net.IPv4(1, 2, 3, 5), Port: 1000}},
+		// same interface identifier as 2001:db8::1 in another prefix
+		udp6("ipv6-other-prefix-same-iid", "2001:db9::1"),
+		// a non-UDP address whose string is the 16 raw bytes of 2001:db8::1
+		NamedAddr{"non-udp-raw-ip6-bytes=str:<16 bytes of 2001:db8::1>", StrAddr{string(ip6("2001:db8::1"))}},
+	)
+	// one IPv6 address per position of the four bytes inside 16 bytes, in an unrelated filler
+	filler := ip6("2001:db8:a1a2:a3a4:a5a6:a7a8:a9aa:abac")
+	for off := 0; off+net.IPv4len <= net.IPv6len; off++ {
+		ip := append(net.IP{}, filler...)
+		copy(ip[off:], []byte{1, 2, 3, 4})
+		as = append(as, NamedAddr{fmt.Sprintf("ipv6-carrying-a-at-byte-%d=udp6:[%s]:1000", off, ip), &net.UDPAddr{IP: ip, Port: 1000}})
+	}
+	return as
 }
 
 const (
@@ -147,7 +206,8 @@ type Mutation struct {
 type Level int
 
 const (
-	Core     Level = iota // bit flips, truncations, one-byte extensions
+	AddrOnly Level = iota - 1 // no mutations: the token is only presented unmodified
+	Core                      // bit flips, truncations, one-byte extensions
 	Extended              // + deletions, insertions, byte substitutions
 	Pairs                 // + every pair of bit flips
 )
@@ -155,6 +215,9 @@ const (
 // Mutations calls visit for every mutation of tok in the chosen level. The slice passed to
 // visit is only valid during the call.
 func Mutations(tok []byte, lvl Level, visit func(Mutation)) {
+	if lvl < Core {
+		return
+	}
 	n := len(tok)
 	buf := make([]byte, n+2)
 	// every single-bit flip
